@@ -6,8 +6,10 @@
 #ifndef RX_NO_ENVALLOC
 #include "common/envalloc.hpp"
 #define HIST_TRACK env::Track _trk
+#define HIST_OWNER(x) env::S().cur_owner = (x)
 #else
 #define HIST_TRACK (void)0
+#define HIST_OWNER(x) (void)0
 #endif
 
 namespace hist {
@@ -115,14 +117,14 @@ struct World {
 	bool apply(const Op& o) {
 		problem.clear();
 		switch (o.code) {
-		case ALLOC_CACHE: { HIST_TRACK; cache[o.a] = randomx_alloc_cache(o.b ? RANDOMX_FLAG_JIT : RANDOMX_FLAG_DEFAULT); cache_jit[o.a] = o.b; cache_key[o.a] = -1; ++cache_gen[o.a]; if (!cache[o.a]) problem = "randomx_alloc_cache returned NULL"; break; }
+		case ALLOC_CACHE: { HIST_TRACK; HIST_OWNER(10 + o.a); cache[o.a] = randomx_alloc_cache(o.b ? RANDOMX_FLAG_JIT : RANDOMX_FLAG_DEFAULT); cache_jit[o.a] = o.b; cache_key[o.a] = -1; ++cache_gen[o.a]; if (!cache[o.a]) problem = "randomx_alloc_cache returned NULL"; break; }
 		case INIT_CACHE: { HIST_TRACK; if (cache_key[o.a] != o.b) ++cache_gen[o.a]; randomx_init_cache(cache[o.a], A->keys[o.b].data(), A->keys[o.b].size()); cache_key[o.a] = o.b; break; }
 		case RELEASE_CACHE: { HIST_TRACK; freed_cache_struct[o.a] = cache[o.a]; freed_cache_mem[o.a] = cache[o.a]->memory; randomx_release_cache(cache[o.a]); cache[o.a] = nullptr; cache_key[o.a] = -1; ++cache_gen[o.a]; break; }
 		case ALLOC_DS: { HIST_TRACK; ds = randomx_alloc_dataset(RANDOMX_FLAG_DEFAULT); ds_key = -1; if (!ds) problem = "randomx_alloc_dataset returned NULL"; break; }
 		case INIT_DS: { HIST_TRACK; randomx_init_dataset(ds, cache[o.a], 0, randomx_dataset_item_count()); ds_key = cache_key[o.a]; break; }
 		case RELEASE_DS: { HIST_TRACK; randomx_release_dataset(ds); ds = nullptr; ds_key = -1; bound_ds = false; break; }
 		case CREATE_VM: {
-			HIST_TRACK; int f = A->vm_flags | (v2 ? RANDOMX_FLAG_V2 : 0);
+			HIST_TRACK; HIST_OWNER(20); int f = A->vm_flags | (v2 ? RANDOMX_FLAG_V2 : 0);
 			vm = randomx_create_vm((randomx_flags)f, A->full() ? nullptr : cache[o.a], A->full() ? ds : nullptr);
 			if (!vm) { problem = "randomx_create_vm returned NULL"; break; }
 			if (A->full()) { bound_ds = true; bound_cache = -1; } else { bound_cache = o.a; bound_gen = cache_gen[o.a]; }
@@ -137,6 +139,7 @@ struct World {
 		case NEXT: { uint8_t out[32]; memset(out, 0xEE, 32); { HIST_TRACK; randomx_calculate_hash_next(vm, A->inputs[o.a].data(), A->inputs[o.a].size(), out); } int was = pending; pending = o.a; check_digest(out, current_key(), was, "randomx_calculate_hash_next"); break; }
 		case LAST: { uint8_t out[32]; memset(out, 0xEE, 32); { HIST_TRACK; randomx_calculate_hash_last(vm, out); } int was = pending; pending = -1; check_digest(out, current_key(), was, "randomx_calculate_hash_last"); break; }
 		}
+		HIST_OWNER(0);
 		_mm_setcsr(0x1F80);   // the harness sets MXCSR before every API call (pipelined calls may leave it changed, by contract)
 		return problem.empty();
 	}
